@@ -442,6 +442,7 @@ def check_wrapping_search_steps(ctx, F):
     is accepted and the search of the decoder model jumps to the other end of the symbol type (wrong symbol or no
     termination).  Instances are found over all DecoderModel::quantile_function bodies; floor = the two quantizer searches."""
     n_inst = 0
+    plain_seen = set()
     for b in F.bodies:
         if b.promoted is not None or b.name != 'quantile_function' or b.dk != 'AssocFn' or '::tests::' in b.defpath:
             continue
@@ -457,6 +458,14 @@ def check_wrapping_search_steps(ctx, F):
         inst = {}
         for r in paths:
             for k, W in r.store.items():
+                # the same search step in *plain* arithmetic: position (+/-) step with both operands loop-carried.  The wrap comparison
+                # that follows shows that wrapping is expected; plain `+` panics there in builds with overflow checks.
+                if len(k) == 1 and isinstance(W, tuple) and W and W[0] == 'bin' and W[1] in ('Add', 'Sub') and all(isinstance(o, tuple) and o and o[0] == 'loop' for o in W[2:4]) \
+                        and any(o[-1] == k for o in W[2:4]) and any(isinstance(t, tuple) and t and t[0] == 'bin' and t[1].split('.')[0] in ORD and W in (t[2], t[3]) for t, v, _ in r.preds):
+                    plain_key = 'R2/wrap-checked-step/%s/plain-%s' % (b.defpath, 'upward' if W[1] == 'Add' else 'downward')
+                    if plain_key not in plain_seen:
+                        plain_seen.add(plain_key)
+                        ctx.bad('R2', 'the search step tolerates the edge of the symbol type', b.defpath, 'the candidate `position %s step` is computed with the plain operator: when the step carries it past the largest (smallest) value of the symbol type - narrow symbol types, supports that end at the type\'s edge - builds with overflow checks panic inside quantile_function instead of rejecting the candidate through the wrap comparison that follows' % ('+' if W[1] == 'Add' else '-'), key=plain_key, loc=rules.loc(b))
                 if not (len(k) == 1 and isinstance(W, tuple) and W and W[0] == 'bin' and W[1] in ('Add.w', 'Sub.w')):
                     continue
                 own = [o for o in W[2:4] if isinstance(o, tuple) and o[0] == 'loop' and o[-1] == k]
